@@ -307,7 +307,7 @@ theorem createSpeculative_frame : ∀ (n : Nat) (sc : CellId) (s : St) (b : Cell
       have hplt : p < s.heap.cells.size := Heap.lt_of_get_ne_unknown _ _ (by rw [hp]; simp)
       -- the recursive call, on the copy cell
       have hpc : (s.heap.alloc (.nil (some sp))).2.get s.heap.cells.size = s.heap.get p := by
-        rw [Heap.get_alloc_new, hp]
+        rw [Heap.get_alloc_new_readOnly, hp]
       have hal := HeapPreserved.alloc s.heap (.nil (some sp))
       have ih := createSpeculative_frame n s.heap.cells.size
         { s with heap := (s.heap.alloc (.nil (some sp))).2 } b cs'
